@@ -5,8 +5,10 @@
   transitions whose wall-clock set-backs do not overlap) and ALL instants before the last recorded
   transition — or any instant when the zone's `ttinfo_std` is the last transition's type
   (`LastStd`; the code answers `ttinfo_std` from the last transition on).
-  Fixed zones: all offsets, all instants.  Range zones (`tzrangebase`): `roundtrip_range` (both
-  hemispheres, exact condition on the year lookups), `roundtrip_range_norule`.  `_tzinfo`
+  Fixed zones: all offsets, all instants.  Range zones (`tzrangebase`): `roundtrip_range_general`
+  (both hemispheres; the wall-year lookups must make the same two decisions as the UTC-year lookup),
+  its same-pair / same-year special cases `roundtrip_range`, `roundtrip_range_partial`, and
+  `roundtrip_range_norule`.  tzfile tables without transitions: `roundtrip_notrans`.  `_tzinfo`
   machinery (tzlocal, tzical): `roundtrip_generic` over abstract utcoffset/dst with a two-offset
   cycle structure, instantiated for C17's iCalendar model in `roundtrip_tzical_cycle`.
 
@@ -64,6 +66,26 @@ theorem offset_in_force (r : Raw) (hwf : Spec.wf r = true) (t u : Int)
   · rw [hc.utcoffset_eq w _ hw3]; simp [offsetAt, hty, hrel.1, Except.toOption]
   · rw [hc.tzname_eq w _ hw3]; simp [nameAt, hty, hrel.2.2.1, Except.toOption]
 
+/-- **roundtrip_notrans (tzfile without transitions).** 32 of the 447 real files (UTC, Etc/GMT±N,
+    EST, HST, …) have an empty version-1 transition list: `_find_last_transition` returns `None`,
+    `is_ambiguous` returns early, and the zone is the fixed offset of the file's type 0 — for every
+    such table with at least one type and every instant. -/
+theorem roundtrip_notrans (r : Raw) (t0 : TType) (rest : List TType) (hn : r.trans = [])
+    (hty : r.types = t0 :: rest) (t : Int) :
+    fromutc (build r) t = .ok ⟨t + t0.off, false⟩ ∧
+    utcoffset (build r) ⟨t + t0.off, false⟩ = .ok t0.off ∧ toUtc (build r) ⟨t + t0.off, false⟩ = .ok t ∧
+    tzname (build r) ⟨t + t0.off, false⟩ = .ok (some t0.abbr) ∧ isAmbiguous (build r) (t + t0.off) = false := by
+  have hb : build r = assemble [] [] (t0 :: rest) := by
+    simp [build, finalTypes, hn, hty, applyAssign, dstLoop]
+  rw [hb]
+  refine ⟨by simp [fromutc, findLastUtc, getTtinfo, assemble, dstLoop, isAmbiguousIdx],
+          by simp [utcoffset, findTtinfo, findLastWall, getTtinfo, assemble, dstLoop], ?_,
+          by simp [tzname, findTtinfo, findLastWall, getTtinfo, assemble, dstLoop],
+          by simp [isAmbiguous, isAmbiguousIdx, assemble, dstLoop]⟩
+  have : utcoffset (assemble [] [] (t0 :: rest)) ⟨t + t0.off, false⟩ = .ok t0.off := by
+    simp [utcoffset, findTtinfo, findLastWall, getTtinfo, assemble, dstLoop]
+  unfold toUtc; rw [this]; show Except.ok _ = _; congr 1; show t + t0.off - t0.off = t; omega
+
 /-! ### fixed zones (tzutc, tzoffset incl. sub-minute offsets): all offsets, all instants -/
 
 theorem roundtrip_fixed (z : FixedZone) (t : Int) :
@@ -78,11 +100,41 @@ theorem offset_in_force_fixed (z : FixedZone) (t : Int) :
 
 /-! ### range zones -/
 
-/-- **roundtrip_range.** `tzrangebase` with a positive saving, in either hemisphere (`on < off` or
-    `off ≤ on`), wherever the two yearly transitions lie: the round trip holds at every instant for
-    which the rule pair looked up by the wall-clock year (what `utcoffset` / `is_ambiguous` use)
-    is the pair `fromutc` looked up by the UTC year.  That is the exact condition: where the two
-    lookups differ is D-C04y's class.  (Negative saving: D-C05r.) -/
+/-- **roundtrip_range_general.** `tzrangebase` with a positive saving, in either hemisphere
+    (`on < off` or `off ≤ on`), wherever the two yearly transitions lie.  `(on, off)` is the pair
+    `fromutc` finds by the UTC year; `(on₁, off₁)` / `(on₂, off₂)` are the pairs `utcoffset` and
+    `is_ambiguous` find by the wall-clock years of the standard and the daylight reading.  The round
+    trip holds whenever each of those pairs makes, at that reading, the same naive decision and the
+    same repeated-interval decision as the UTC year's pair — this is the condition the code needs;
+    where it fails is D-C04y.  `C08.tzstr_posix_partial` discharges it for tzstr zones whose
+    transitions keep a margin from New Year (`TZ.decisions_cohere`). -/
+theorem roundtrip_range_general (z : RangeZone) (t on off on₁ off₁ on₂ off₂ : Int)
+    (hsav : 0 < z.saving) (hd : z.hasdst = true)
+    (htr : z.transitions (yearOf t) = some (on, off))
+    (h₁ : z.transitions (yearOf (t + z.stdOff)) = some (on₁, off₁))
+    (h₂ : z.transitions (yearOf (t + z.dstOff)) = some (on₂, off₂))
+    (n₁ : RangeZone.naiveIsdst (t + z.stdOff) (on₁, off₁) = RangeZone.naiveIsdst (t + z.stdOff) (on, off))
+    (a₁ : (decide (off₁ ≤ t + z.stdOff) && decide (t + z.stdOff < off₁ + z.saving)) =
+          (decide (off ≤ t + z.stdOff) && decide (t + z.stdOff < off + z.saving)))
+    (n₂ : RangeZone.naiveIsdst (t + z.dstOff) (on₂, off₂) = RangeZone.naiveIsdst (t + z.dstOff) (on, off))
+    (a₂ : (decide (off₂ ≤ t + z.dstOff) && decide (t + z.dstOff < off₂ + z.saving)) =
+          (decide (off ≤ t + z.dstOff) && decide (t + z.dstOff < off + z.saving))) :
+    ∃ w, z.fromutc t = .ok w ∧ z.utcoffset w = .ok (w.wall - t) ∧ z.toUtc w = .ok t := by
+  obtain ⟨w, hf, hwall, hi⟩ := RangeZone.isdst_fromutc z t on off on₁ off₁ on₂ off₂ hsav hd htr h₁ h₂ n₁ a₁ n₂ a₂
+  obtain ⟨r1, _, _⟩ := RangeZone.answers_of_isdst z w _ hi
+  have e : (if RangeZone.naiveIsdst t (on - z.stdOff, off - z.stdOff) then z.dstOff else z.stdOff) = w.wall - t := by
+    rw [hwall]; omega
+  refine ⟨w, hf, by rw [r1, e], ?_⟩
+  unfold RangeZone.toUtc; rw [r1, e]
+  show Except.ok _ = _; congr 1; omega
+
+/-- **roundtrip_range** (same-pair form).  Hypotheses `hy1 / hy2` ask that the lookups by the
+    wall-clock years return the SAME pair of instants as the lookup by the UTC year.  A real
+    `transitions(year)` returns datetimes of that year, so for tzrange / tzstr zones this holds
+    exactly when the wall-clock year equals the UTC year: there the theorem coincides with
+    `roundtrip_range_partial` and excludes the |offset| hours around every New Year (covered by
+    `roundtrip_range_general` + `C08.tzstr_posix_partial`, and by the oracle's year-edge probes).
+    It is strictly more general only for abstract `transitions` functions that repeat a pair. -/
 theorem roundtrip_range (z : RangeZone) (t on off : Int)
     (hsav : 0 < z.saving) (hd : z.hasdst = true)
     (htr : z.transitions (yearOf t) = some (on, off))
@@ -155,17 +207,18 @@ theorem roundtrip_range_norule (z : RangeZone) (t : Int)
     `utcoffset/dst`: if these follow the two-offset interval semantics of a cycle on a wall window
     (`GenericZone.CycleSem`: standard offset everywhere, daylight below `off` and, for fold=0, on the
     repeated interval) and `is_ambiguous` is the repeated interval, then every instant whose
-    standard-time reading and its daylight reading lie in the window round-trips; fold=1 is set
-    exactly on the standard side of the repeated interval. -/
+    standard-time reading lies in the window (and, while daylight time is in force, also its daylight
+    reading) round-trips; fold=1 is set exactly on the standard side of the repeated interval.
+    Windows `[on, nextOn)` with `off + saving ≤ nextOn` tile the timeline. -/
 theorem roundtrip_generic (g : GenericZone) (stdOff saving off lo hi t : Int) (hs : 0 < saving)
     (hsem : GenericZone.CycleSem g stdOff saving off lo hi)
     (hamb : ∀ w, lo ≤ w → w < hi → g.isAmbiguous w = (decide (off ≤ w) && decide (w < off + saving)))
     (h0 : g.utcoffset ⟨t, false⟩ - g.dst ⟨t, false⟩ = stdOff)
-    (hx1 : lo ≤ t + stdOff) (hx2 : t + stdOff + saving < hi) :
+    (hx1 : lo ≤ t + stdOff) (hx2 : t + stdOff < hi) (hx3 : t + stdOff < off → t + stdOff + saving < hi) :
     g.utcoffset (g.fromutc t) = (g.fromutc t).wall - t ∧ g.toUtc (g.fromutc t) = t ∧
     (g.fromutc t).wall = (if t + stdOff < off then t + stdOff + saving else t + stdOff) ∧
     (g.fromutc t).fold = (decide (off ≤ t + stdOff) && decide (t + stdOff < off + saving)) :=
-  GenericZone.roundtrip g stdOff saving off lo hi t hs hsem hamb h0 hx1 hx2
+  GenericZone.roundtrip g stdOff saving off lo hi t hs hsem hamb h0 hx1 hx2 hx3
 
 /-- for zones using the generic `is_ambiguous` (tzical) the ambiguity hypothesis follows -/
 theorem generic_ambiguous (g : GenericZone) (stdOff saving off lo hi : Int) (hs : 0 < saving)
@@ -184,7 +237,7 @@ theorem roundtrip_tzical_cycle (S D : List Int) (stdOff dstOff on off nextOn t :
     (H2 : ∀ x, on ≤ x → x < off + (dstOff - stdOff) → ∀ p, ICal.lastLE S x = some p → p < on)
     (H3 : ∀ x, off + (dstOff - stdOff) ≤ x → x < nextOn + (dstOff - stdOff) →
       ICal.lastLE S x = some (off + (dstOff - stdOff)))
-    (hx1 : on ≤ t + stdOff) (hx2 : t + dstOff < nextOn) :
+    (hx1 : on ≤ t + stdOff) (hx2 : t + stdOff < nextOn) :
     let g := (ICal.generic [{ tzoffsetfrom := dstOff, tzoffsetto := stdOff, isdst := false, onsets := S : ICal.ZComp },
                             { tzoffsetfrom := stdOff, tzoffsetto := dstOff, isdst := true, onsets := D : ICal.ZComp }])
     g.utcoffset (g.fromutc t).1 (g.fromutc t).2 = (g.fromutc t).1 - t ∧
@@ -198,12 +251,12 @@ theorem roundtrip_tzical_cycle (S D : List Int) (stdOff dstOff on off nextOn t :
     round-trips with tzlocal's own `is_ambiguous`, and fold=1 marks the second pass. -/
 theorem roundtrip_tzlocal (z : RangeZone) (off lo hi t : Int) (hd : z.hasdst = true) (hs : 0 < z.saving)
     (hN : ∀ w, lo - z.saving ≤ w → w < hi → localNaiveIsdst z w = decide (w < off))
-    (hx1 : lo ≤ t + z.stdOff) (hx2 : t + z.stdOff + z.saving < hi) :
+    (hx1 : lo ≤ t + z.stdOff) (hx2 : t + z.stdOff < hi) (hx3 : t + z.stdOff < off → t + z.stdOff + z.saving < hi) :
     (localZone z).utcoffset ((localZone z).fromutc t) = ((localZone z).fromutc t).wall - t ∧
     (localZone z).toUtc ((localZone z).fromutc t) = t ∧
     ((localZone z).fromutc t).wall = (if t + z.stdOff < off then t + z.stdOff + z.saving else t + z.stdOff) ∧
     ((localZone z).fromutc t).fold = (decide (off ≤ t + z.stdOff) && decide (t + z.stdOff < off + z.saving)) :=
-  roundtrip_local z off lo hi t hd hs hN hx1 hx2
+  roundtrip_local z off lo hi t hd hs hN hx1 hx2 hx3
 
 /-- the window hypothesis of `roundtrip_tzlocal` inside one northern rule year … -/
 theorem tzlocal_window_north (z : RangeZone) (on off lo hi : Int) (h : on < off) (hlo : on ≤ lo - z.saving)
@@ -224,12 +277,22 @@ def exR : Raw := { trans := [(1000000, 1), (2000000, 0), (3000000, 1)],
                    types := [⟨0, 0, [65], false, false, 0⟩, ⟨3600, 1, [66], false, false, 0⟩] }
 example : Spec.wf exR = true := by decide
 example : fromutc (build exR) 2000100 = .ok ⟨2000100, true⟩ ∧ fromutc (build exR) 1996500 = .ok ⟨2000100, false⟩ := by decide
-/-- a southern-hemisphere rule (AEST-10AEDT 2020, `off < on`): hypotheses of `roundtrip_range` hold on
-    1 January although DST is in force across the year boundary -/
+/-- a southern-hemisphere rule (AEST-10AEDT, `off < on`): ALL hypotheses of `roundtrip_range` are
+    discharged for 2020-07-01T00:00Z (mid-year: UTC year = wall-clock years = 2020) -/
 def aestZone : RangeZone :=
   RangeZone.ofTable 36000 39600 true [(2019, 1570327200, 1554602400), (2020, 1601776800, 1586052000)]
-example : aestZone.transitions (yearOf 1577800000) = some (1570327200, 1554602400) ∧ yearOf 1577800000 = 2019 ∧
-    yearOf (1577800000 + 39600) = 2020 := by decide
+example : ∃ w, aestZone.fromutc 1593561600 = .ok w ∧ aestZone.utcoffset w = .ok (w.wall - 1593561600) ∧
+    aestZone.toUtc w = .ok 1593561600 :=
+  roundtrip_range aestZone 1593561600 1601776800 1586052000 (by decide) (by decide) (by decide) (by decide) (by decide)
+/-- on 1 January (2019-12-31T13:46:40Z, DST in force across New Year) the wall-clock year is 2020 and
+    the same-pair hypothesis `hy2` FAILS — such instants need `roundtrip_range_general`: the 2020
+    pair makes the same decisions at that reading as the 2019 pair -/
+example : yearOf 1577800000 = 2019 ∧ yearOf (1577800000 + 39600) = 2020 ∧
+    aestZone.transitions 2020 ≠ aestZone.transitions 2019 := by decide
+example : ∃ w, aestZone.fromutc 1577800000 = .ok w ∧ aestZone.utcoffset w = .ok (w.wall - 1577800000) ∧
+    aestZone.toUtc w = .ok 1577800000 :=
+  roundtrip_range_general aestZone 1577800000 1570327200 1554602400 1570327200 1554602400 1601776800 1586052000
+    (by decide) (by decide) (by decide) (by decide) (by decide) (by decide) (by decide) (by decide) (by decide)
 /-- a northern-hemisphere rule in 2020 (EST5EDT): hypotheses of `roundtrip_range_partial` are satisfiable -/
 def estZone : RangeZone := RangeZone.ofTable (-18000) (-14400) true [(2020, 1583632800, 1604192400)]
 example : yearOf 1604210000 = 2020 ∧ estZone.transitions (yearOf 1604210000) = some (1583632800, 1604192400) ∧
@@ -243,5 +306,15 @@ example : negZone.fromutc 1603587600 = .ok ⟨1603587600, false⟩ ∧
 /-- tzlocal under EST5EDT in 2020: the second 01:30 of 2020-11-01 (06:30Z) gets fold=1 -/
 example : (localZone estZone).fromutc 1604212200 = ⟨1604212200 - 18000, true⟩ ∧
     (localZone estZone).fromutc 1604208600 = ⟨1604208600 - 14400, false⟩ := by decide
+
+/-- the `LastStd` branch is inhabited: a table ending on its standard type; after the last transition
+    the code answers `ttinfo_std`, which is that type (the situation of 433 of the 447 real files) -/
+def exStd : Raw := { trans := [(1000000, 1), (2000000, 0)],
+                     types := [⟨0, 0, [65], false, false, 0⟩, ⟨3600, 1, [66], false, false, 0⟩] }
+example : Spec.wf exStd = true ∧ LastStd (build exStd) ∧ fromutc (build exStd) 5000000 = .ok ⟨5000000, false⟩ := by
+  unfold LastStd; decide
+/-- a table without transitions (`roundtrip_notrans`) -/
+example : fromutc (build { trans := [], types := [⟨-36000, 0, [72, 83, 84], false, false, 0⟩] }) 0 = .ok ⟨-36000, false⟩ := by
+  decide
 
 end C04
